@@ -142,6 +142,10 @@ def run(tier, seed, model):
     batch.resolve(camp, "C02")
     if not camp.oracle_failures:
         long_updates(camp, rng)
+    if not camp.oracle_failures:
+        # several sessions in one process, formats differing only in channel order, the same wire bytes as raw pixels and fills
+        import c13
+        c13.session_sequences(camp, rng, 10 if tier == "quick" else 200, pid="C02")
     if model is not None:
         theorem_samples(camp, model, rng, 40 if tier == "quick" else 1500)
         zrle_theorem_samples(camp, model, rng, 30 if tier == "quick" else 600)
